@@ -248,8 +248,8 @@ type Batch struct {
 func genBatch(t *rapid.T) Batch {
 	n := rapid.IntRange(2, 4).Draw(t, "n")
 	b := Batch{}
-	if rapid.IntRange(0, 11).Draw(t, "large") == 0 {
-		b.Rounds = rapid.IntRange(5, 15).Draw(t, "rounds")
+	if rapid.IntRange(0, 29).Draw(t, "large") == 0 {
+		b.Rounds = rapid.IntRange(10, 25).Draw(t, "rounds")
 		for i := 0; i < n; i++ {
 			unit := genValid(t, "unit") + "\n"
 			if strings.TrimSpace(unit) == "" {
@@ -289,7 +289,7 @@ func oracleConcurrent(c Batch, o *h.Obs) *h.Fail {
 	G := 8
 	rounds := 1
 	if c.Rounds > 1 {
-		G, rounds = 16, c.Rounds
+		G, rounds = 32, c.Rounds
 		o.Class("large_sources_parsed_repeatedly")
 	}
 	got := make([][]string, G)
@@ -306,9 +306,9 @@ func oracleConcurrent(c Batch, o *h.Obs) *h.Fail {
 			for k := 0; k < len(c.Srcs)*rounds; k++ {
 				i := (k + g) % len(c.Srcs)
 				if rounds > 1 {
-					// three quarters of the goroutines keep to text 0, the others cycle over the rest
+					// seven eighths of the goroutines keep to text 0, the others cycle over the rest
 					i = 0
-					if g%4 == 3 && len(c.Srcs) > 1 {
+					if g%8 == 7 && len(c.Srcs) > 1 {
 						i = 1 + (k+g)%(len(c.Srcs)-1)
 					}
 				}
